@@ -399,6 +399,89 @@ fn stream_case(kmax: u8, maxops: usize) -> BoxedStrategy<StreamCase> {
         .boxed()
 }
 
+#[derive(Clone, Debug, Serialize, Deserialize, Hash)]
+pub struct DeepStream {
+    pub vars: u8,
+    /// per variable (from the last to the first): connective (0 and, 1 or, 2 xor), polarity, skip
+    pub spec: Vec<(u8, bool, bool)>,
+    /// the receiver is polled after these many producer steps (handle asked: the newest / an old one / a future one)
+    pub polls: Vec<(u8, u8)>,
+    pub relay: bool,
+}
+
+fn deep_stream_case() -> BoxedStrategy<DeepStream> {
+    (65u8..=100, proptest::collection::vec((0u8..3, any::<bool>(), proptest::bool::weighted(0.1)), 100), proptest::collection::vec((any::<u8>(), 0u8..3), 0..6), any::<bool>())
+        .prop_map(|(vars, spec, polls, relay)| DeepStream { vars, spec, polls, relay })
+        .boxed()
+}
+
+fn c19_deep(c: &DeepStream, st: &mut Stats) -> CheckResult {
+    use adf_bdd::datatypes::Var;
+    let (s, r) = crossbeam_channel::unbounded();
+    let mut producer = Bdd::with_sender(s);
+    let (mut mirror, mut last) = if c.relay {
+        let (s2, r2) = crossbeam_channel::unbounded();
+        (Bdd::with_sender_receiver(s2, r), Some(Bdd::with_receiver(r2)))
+    } else {
+        (Bdd::with_receiver(r), None)
+    };
+    let v = c.vars as usize;
+    let mut acc: Option<Term> = None;
+    let mut polled = 0usize;
+    for (step, i) in (0..v).rev().enumerate() {
+        let (con, pol, skip) = c.spec[i % c.spec.len()];
+        if skip && i != 0 {
+            continue;
+        }
+        let x = producer.variable(Var(i));
+        let lit = if pol { x } else { producer.not(x) };
+        acc = Some(match acc {
+            None => lit,
+            Some(a) => match con {
+                0 => producer.and(lit, a),
+                1 => producer.or(lit, a),
+                _ => producer.xor(lit, a),
+            },
+        });
+        for (at, kind) in &c.polls {
+            if *at as usize % v == step {
+                let n = producer.nodes.len();
+                let ask = match kind {
+                    0 => n - 1,
+                    1 => 2 + (*at as usize) % (n - 1).max(1),
+                    _ => n + 3,
+                };
+                let found = mirror.recv(Term(ask));
+                polled += 1;
+                if found != (ask < n) {
+                    return Err(format!("poll for handle {ask} with {n} nodes produced: recv returned {found}"));
+                }
+                if mirror.nodes[..] != producer.nodes[..mirror.nodes.len()] {
+                    return Err("the mirror is not a prefix of the producer's table".into());
+                }
+            }
+        }
+    }
+    let n = producer.nodes.len();
+    let _ = mirror.recv(Term(n + 1));
+    if mirror.nodes != producer.nodes {
+        return Err(format!("after taking everything the mirror has {} nodes, the producer {n}", mirror.nodes.len()));
+    }
+    if let Some(last) = last.as_mut() {
+        if !last.recv(Term(n - 1)) && n > 2 {
+            return Err("the receiver behind the relay did not find the last handle".into());
+        }
+        let _ = last.recv(Term(n + 1));
+        if last.nodes != producer.nodes {
+            return Err("the receiver behind the relay differs from the producer".into());
+        }
+    }
+    if polled > 0 && n > 60 {
+        st.nontrivial(stable_hash(c), || json!({"vars": v, "nodes": n, "polls": polled, "relay": c.relay}));
+    }
+    Ok(Outcome::Ok)
+}
+
 pub fn c19(tier: Tier) -> PropSpec {
     PropSpec {
         id: "C19",
@@ -419,6 +502,11 @@ pub fn c19(tier: Tier) -> PropSpec {
             Part::new("schedules", tier.pick(20000, 200000), || stream_case(5, 30), c19_check),
             Part::new("short-exhaustive", tier.pick(6000, 60000), || stream_case(3, 4), c19_check),
             Part::new("threads", tier.pick(800, 8000), || stream_case(5, 40), c19_threads),
+            // diagrams over 65..100 variables (long chains: children of very different depth, variable indices beyond one machine word)
+            Part::new("deep-stream", tier.pick(1500, 15000), deep_stream_case, c19_deep),
+            // the streaming frontend under every cargo feature set that has it (probe binaries of C12): the mirror must
+            // reproduce the producer's table in every build, builds without the frontend replay the node list
+            Part::with_shrink("feature-lanes", tier.pick(250, 2500), 200, crate::props::features::probe_stream_case, crate::props::features::c12_check_entry),
         ],
     }
 }
